@@ -73,15 +73,27 @@ def assigned_names(body_nodes):
     return names, attrs, mutated
 
 
-def _call_pred(interp, pred, env, assumed=False):
+def _call_pred(interp, pred, env, assumed=False, proving=None):
     """Call a sidecar predicate, passing the values of the names it asks for.  assumed: the caller is
-    going to assume the result (Interp.call_assumed)."""
+    going to assume the result (Interp.call_assumed); proving=(name, meta): the caller is going to record the
+    result as that obligation (Interp.call_proving)."""
     params = _param_names(pred)
     missing = [p for p in params if p not in env]
     if missing:
         raise Unsupported('loop/contract predicate asks for unknown name(s) %s' % missing)
     if assumed:
         return interp.call_assumed(pred, [env[p] for p in params], {})
+    if proving is not None:
+        n = len(interp.st.scopes)
+        try:
+            v = interp.call_proving(pred, [env[p] for p in params], proving[0], proving[1])
+            # the value is recorded by the caller as the last step of the same proof: under the steps so far
+            if len(interp.st.scopes) > n and isinstance(v, (SBool, bool)):
+                hyp = interp.st.scopes[n:]
+                v = wrap(z3.Implies(z3.And(*hyp) if len(hyp) > 1 else hyp[0], to_z3(v)))
+            return v
+        finally:
+            del interp.st.scopes[n:]
     return interp.call(pred, [env[p] for p in params], {})
 
 
@@ -324,7 +336,8 @@ def exec_while(interp, node, frame):
     modified, _ = _check_frame(spec, node)
     label = '%s : loop#%s' % (fname, ordinal)
     # (1) invariant on entry
-    inv0 = interp.truth(_call_pred(interp, spec.invariant, _env_of(interp, frame, {})))
+    inv0 = interp.truth(_call_pred(interp, spec.invariant, _env_of(interp, frame, {}),
+                                   proving=(label + ' invariant[entry]', {'kind': 'loop-entry'})))
     st.oblige(label + ' invariant[entry]', inv0, {'kind': 'loop-entry'})
     which = st.choose(2)
     _havoc(interp, frame, spec, modified, 'L%s' % ordinal)
@@ -347,7 +360,8 @@ def exec_while(interp, node, frame):
             if r[0] == 'break':
                 return None
             return r
-        inv2 = interp.truth(_call_pred(interp, spec.invariant, _env_of(interp, frame, {})))
+        inv2 = interp.truth(_call_pred(interp, spec.invariant, _env_of(interp, frame, {}),
+                                       proving=(label + ' invariant[preserved]', {'kind': 'loop-preserve'})))
         st.oblige(label + ' invariant[preserved]', inv2, {'kind': 'loop-preserve'})
         if dec0 is not None:
             dec1 = _call_pred(interp, spec.decreases, _env_of(interp, frame, {}))
@@ -441,7 +455,8 @@ def _for_symbolic(interp, node, frame, src):
     def env(i):
         return _env_of(interp, frame, {'_i': wrap(i), '_xs': xs, '_n': wrap(n), '_start': wrap(start)})
 
-    inv0 = interp.truth(_call_pred(interp, spec.invariant, env(start)))
+    inv0 = interp.truth(_call_pred(interp, spec.invariant, env(start),
+                                   proving=(label + ' invariant[entry]', {'kind': 'loop-entry'})))
     st.oblige(label + ' invariant[entry]', inv0, {'kind': 'loop-entry'})
     which = st.choose(2)
     tag = 'L%s' % ordinal
@@ -467,7 +482,8 @@ def _for_symbolic(interp, node, frame, src):
             if r[0] == 'break':
                 return None
             return r
-        inv2 = interp.truth(_call_pred(interp, spec.invariant, env(i + 1)))
+        inv2 = interp.truth(_call_pred(interp, spec.invariant, env(i + 1),
+                                       proving=(label + ' invariant[preserved]', {'kind': 'loop-preserve'})))
         st.oblige(label + ' invariant[preserved]', inv2, {'kind': 'loop-preserve'})
         raise PathAbort()
     # exit: all elements consumed
